@@ -73,6 +73,13 @@ def run_check(tier, seed):
     env = {'C20_MAXLEN': str(n), 'C20_MAXARG': '5' if tier == 'quick' else '6', 'PYTHONHASHSEED': '0'}
     os.environ.update(env)
     mod = _load()
+    # the string/token-backed part (symtex) runs concurrently in its own process group
+    import subprocess
+    sx_proc = None
+    if os.path.exists(os.path.join(VERIF, 'checks', 'c20sx.py')):
+        sx_proc = subprocess.Popen([sys.executable, '-m', 'vt.cli', 'c20sx', tier], cwd=VERIF, stdout=subprocess.PIPE,
+                                   stderr=subprocess.STDOUT, text=True,
+                                   env=dict(os.environ, VERIF_WORKERS='10'))
     jobs = [(name, False, timeout, env) for name in mod.STEPS] + [(name, True, 60, env) for name in mod.STEPS]
     ctx = mp.get_context('spawn')
     with ctx.Pool(min(16, len(jobs))) as pool:
@@ -108,14 +115,18 @@ def run_check(tier, seed):
             elif s != 'CONFIRMED':
                 problems.append('%s: %s %s' % (r['name'], s, m[:200]))
     # string- and token-backed buffers on symtex
-    from vt import runner as R2
     sx_rc, sx_ev = 0, None
-    try:
-        sx_rc = R2.run_check('c20sx', tier, seed)
-        with open(os.path.join(VERIF, 'evidence', 'C20.json')) as f:
-            sx_ev = json.load(f)
-    except ModuleNotFoundError:
-        sx_ev = None
+    if sx_proc is not None:
+        out, _ = sx_proc.communicate()
+        sx_rc = sx_proc.returncode
+        for line in out.splitlines():
+            runner.log('  [symtex] ' + line)
+        try:
+            with open(os.path.join(VERIF, 'evidence', 'C20.json')) as f:
+                sx_ev = json.load(f)
+        except Exception:
+            sx_ev = None
+            sx_rc = sx_rc or 2
     known = {k['signature']: k for k in runner.load_known() if k['property'] == 'C20' and k.get('status') == 'known'}
     new = 0
     for name, m, det in viols:
@@ -163,7 +174,7 @@ def run_check(tier, seed):
         confirmed, len(mod.STEPS), twins_refuted, len(mod.STEPS), z3n, z3t, wall))
     if new or sx_rc == 1:
         return 1
-    if problems or sx_rc == 2:
+    if problems or sx_rc != 0:
         return 2
     runner.log('[C20] PASS within bounds len(seq)<=%d' % n)
     return 0
